@@ -125,10 +125,7 @@ def packet_obs():
         # (field_sensitivityt::get_fields; 0.3 s per access).  Arrays longer than 8 elements stay arrays (rows, link and triplet tables): symex 17 s.
         if "--max-field-sensitivity-array-size" not in o[k].flags:
             o[k].flags = o[k].flags + ["--max-field-sensitivity-array-size", "8"]
-    for k in ("btt", "mpt", "mpt_ex", "mip", "rows", "header", "header_badpage", "header_timefill", "addr_error"):
-        # obligations on the decoder / network objects (52 KB / 35 KB): same per-access cost of field sensitivity; rows, page statistics, link tables stay arrays
-        if "--max-field-sensitivity-array-size" not in o[k].flags:
-            o[k].flags = o[k].flags + ["--max-field-sensitivity-array-size", "8"]
+    # (tried and dropped: the same flag on the decoder/network obligations - header 56 s -> no verdict in 1200 s, dispatcher and addr_error likewise)
     for k in ("pop", "x27", "ait"):
         o[k].unwind = 1100              # member-wise frame loops (508 triplets, 1040 row bytes); the parsers' own loops are <= 13 (unwinding assertions on)
     return o
